@@ -147,6 +147,10 @@ Allowed(e) ==
                   LET C == e.C[c]
                       num == 2 * SplineNum(C, m \div unit) - SplineNum(C, a \div unit) - SplineNum(C, b \div unit)
                   IN CloseTo(e.errs[j][c], num, 2 * D * D * D, 2 * Tol(MaxAbsP(C)) * NSeg(C))
+    \* a spline of millions of segments, at parameters that f32 names exactly: e.missj joints (of e.njoint) where
+    \* the spline is not the control point itself, e.missm segment midpoints where it (or its tangent) is not the
+    \* corresponding cubic's, e.ends = 1 iff both ends are the end control points
+    [] e.op = "bigspline" -> e.panic = 0 /\ e.njoint > 0 /\ e.missj = 0 /\ e.missm = 0 /\ e.ends = 1
     \* ---- growth beyond the listed property (reported as notes by py/c17.py)
     [] e.op = "smooth" ->
          \* smoothstep(t) = t^2 (3 - 2t), smootherstep(t) = t^3 (10 + t (6t - 15)) on t = kk/16, clamped outside [0, 1]
